@@ -212,7 +212,8 @@ func check(prop, tier, only, repoDir, verifDir string, workers, par, seed int, d
 	var inconclusive []string
 	var violations []string
 	var notes []string
-	replays := 0
+	replays := 0 // solver counterexamples replayed natively
+	probes := 0  // native evaluations at probe points for undecided obligations (varies with solver time-outs)
 	paths, instrs := 0, 0
 	knownSeen := map[string]bool{}
 	reachOK := map[string]bool{}
@@ -343,7 +344,7 @@ func check(prop, tier, only, repoDir, verifDir string, workers, par, seed int, d
 					}
 					ob.Model = pm
 					ro := rp.Replay(hr.Spec, ob, ld.Specs, tier, knownIDs, replayDir)
-					replays++
+					probes++
 					if ro.Reproduced {
 						hit = true
 						ob.Replay = &ro
@@ -463,6 +464,7 @@ func check(prop, tier, only, repoDir, verifDir string, workers, par, seed int, d
 				"states":                        paths,
 				"transitions":                   instrs,
 				"traces_validated_against_impl": replays,
+				"native_probe_evaluations":      probes,
 				"obligations":                   nOb,
 				"discharged":                    nDis,
 				"inconclusive":                  nInc,
